@@ -9,6 +9,7 @@ import (
 	"sync"
 	"sync/atomic"
 	"syscall"
+	"time"
 
 	"verifharness/proto"
 )
@@ -31,6 +32,76 @@ type recorder struct {
 	pending *proto.Fault     // kill-after waiting for write-partial
 	serial  int              // generator instance serials
 	cancel  func()           // cancels the context handed to Execute
+	// a cancelled caller with a slow callback: the callback in which the cancellation happens does not
+	// come back before Execute has returned to its caller (returned is closed) or slowFor has passed
+	returned chan struct{}
+	isLate   atomic.Bool // Execute has returned: everything from now on is late
+	late     []string
+	lateSeen atomic.Int64
+}
+
+const slowFor = 40 * time.Millisecond
+
+// slowCallback blocks the calling callback (no lock held) after it cancelled the caller's context.
+func (r *recorder) slowCallback() {
+	r.mu.Lock()
+	ch := r.returned
+	r.mu.Unlock()
+	if ch == nil {
+		return
+	}
+	select {
+	case <-ch:
+	case <-time.After(slowFor):
+	}
+}
+
+func (r *recorder) firedDo(do string) bool {
+	r.mu.Lock()
+	defer r.mu.Unlock()
+	for _, f := range r.fired {
+		if strings.HasSuffix(f, ":"+do) {
+			return true
+		}
+	}
+	return false
+}
+
+func (r *recorder) noteLate(what string) {
+	r.lateSeen.Add(1)
+	r.mu.Lock()
+	if len(r.late) < 8 {
+		r.late = append(r.late, what)
+	}
+	r.mu.Unlock()
+}
+
+// executeReturned marks the return of Execute. If a callback is still being held back (gengo returned
+// to a cancelled caller without waiting for it), it is released now and the worker waits until gengo
+// has been quiet for a while, so that everything it still does is on record.
+func (r *recorder) executeReturned(cancelFired bool) []string {
+	r.mu.Lock()
+	ch := r.returned
+	r.returned = nil
+	r.mu.Unlock()
+	if !cancelFired || ch == nil {
+		return nil
+	}
+	r.isLate.Store(true)
+	close(ch)
+	quiet, last := 0, r.lateSeen.Load()
+	for i := 0; i < 100 && quiet < 6; i++ {
+		time.Sleep(10 * time.Millisecond)
+		if n := r.lateSeen.Load(); n != last {
+			last, quiet = n, 0
+		} else {
+			quiet++
+		}
+	}
+	r.isLate.Store(false)
+	r.mu.Lock()
+	defer r.mu.Unlock()
+	return r.late
 }
 
 var rec = &recorder{}
@@ -55,6 +126,10 @@ func (r *recorder) reset(req *proto.RunReq) {
 	r.offs = map[string]int64{}
 	r.pending = nil
 	r.serial = 0
+	r.returned = make(chan struct{})
+	r.isLate.Store(false)
+	r.late = nil
+	r.lateSeen.Store(0)
 }
 
 func (r *recorder) start()     { r.active.Store(true) }
@@ -110,6 +185,18 @@ const (
 func kill() {
 	_ = syscall.Kill(syscall.Getpid(), syscall.SIGKILL)
 	select {}
+}
+
+// sendSignal delivers SIGTERM or SIGINT to the process itself (a CI timeout, docker stop, ctrl-c) and
+// waits a moment: without a handler the process dies right here, at this event; if somebody handles
+// the signal the run goes on.
+func sendSignal(do string) {
+	sig := syscall.SIGTERM
+	if strings.HasSuffix(do, "INT") {
+		sig = syscall.SIGINT
+	}
+	_ = syscall.Kill(syscall.Getpid(), sig)
+	time.Sleep(150 * time.Millisecond)
 }
 
 // match finds the first unused fault addressing ev (r.mu held).
@@ -217,6 +304,17 @@ func (r *recorder) osEvent(op, path string, n int) (int, error) {
 	if !ok {
 		return 0, nil
 	}
+	if r.isLate.Load() {
+		switch op {
+		case "write", "writeat", "rename", "remove", "readfrom", "symlink", "truncate":
+			r.noteLate("os." + op + " " + rel)
+		case "open":
+			if n&(os.O_WRONLY|os.O_RDWR|os.O_CREATE|os.O_TRUNC) != 0 {
+				r.noteLate("os.open(for writing) " + rel)
+			}
+		}
+		return 0, nil
+	}
 	if second != "" && op != "symlink" {
 		if rel2, ok2 := relUnder(r.root, abs(second)); ok2 {
 			rel = rel + " -> " + rel2
@@ -285,6 +383,13 @@ func (r *recorder) osEvent(op, path string, n int) (int, error) {
 		}
 		r.mu.Unlock()
 		return 0, nil
+	case strings.HasPrefix(do, "signal:"):
+		if op == "write" {
+			r.offs[rel] += int64(n)
+		}
+		r.mu.Unlock()
+		sendSignal(do)
+		return 0, nil
 	case strings.HasPrefix(do, "errno:"):
 		e := errnos[do[len("errno:"):]]
 		if e == 0 {
@@ -320,6 +425,12 @@ func (r *recorder) point(kind string, path string) genAction {
 
 func (r *recorder) genEvent(ev proto.Event) genAction {
 	if !r.active.Load() {
+		return actNone
+	}
+	if r.isLate.Load() {
+		if ev.Kind != "phase" {
+			r.noteLate(ev.Kind + " " + ev.Gen + " " + ev.Pkg + " " + ev.Type)
+		}
 		return actNone
 	}
 	r.mu.Lock()
@@ -375,6 +486,9 @@ func (r *recorder) genEvent(ev proto.Event) genAction {
 		if r.cancel != nil {
 			r.cancel()
 		}
+		r.slowCallback()
+	case strings.HasPrefix(f.Do, "signal:"):
+		sendSignal(f.Do)
 	case f.Do == "gen-error":
 		return actGenError
 	case f.Do == "gen-unparseable":
